@@ -125,6 +125,8 @@ def main(tier, write_baseline=False):
         base = M._raise_baseline()
         for r in res:
             for seq, ir_, exc in r[4]:
+                if len(seq) > 3 or len(ir_.get("params") or {}) > 1:
+                    continue  # only the seed-independent part: one-parameter starts x the exhaustive sequences of length <= 3
                 h = M._raise_hash(seq, ir_, exc)
                 if write_baseline:
                     M._NEW_RAISES.add(h)
